@@ -1115,6 +1115,11 @@ func (fv *FV) specCall(env *Env, c *SCall) Term {
 		need(3)
 		a := args()
 		return fv.eqvTerm(a[0], a[1], a[2])
+	case "streq":
+		// content equality of two strings (what Go's == on strings decides)
+		need(2)
+		a := args()
+		return Term{S: fv.strEq(a[0], a[1]), Sort: sBool}
 	case "ncalls":
 		need(1)
 		return Term{S: fv.heapGet(env.st, fv.callsComp("len", "")), Sort: sInt, T: types.Typ[types.Int]}
